@@ -646,6 +646,8 @@ def run_units(h, worker, units, procs=None):
     totals = {}
     if os.environ.get("VERIF_PROCS"):
         procs = int(os.environ["VERIF_PROCS"])
+    if os.environ.get("VERIF_D_STRIDE"):  # debugging aid: run every k-th unit only
+        units = units[:: int(os.environ["VERIF_D_STRIDE"])]
     procs = procs or min(16, os.cpu_count() or 1)
     if procs <= 1 or len(units) <= 1:
         for u in units:
